@@ -190,12 +190,17 @@ def main(argv=None):
     item_timeout = getattr(h, "ITEM_TIMEOUT", {}).get(a.tier, 120 if a.tier == "quick" else 900)
     results = run_items(prop, items, a.tier, repo, seed, a.jobs, item_timeout)
 
+    if os.environ.get("VERIF_DUMP"):
+        with open(os.environ["VERIF_DUMP"], "w") as f:
+            json.dump([dict(id=c.get("id"), st=st, payload=(pl if st == "ok" else str(pl))) for c, st, pl in results],
+                      f, default=str)
     known = load_known(os.path.join(VERIF, "known_findings.json"))
     harness_errors = []
     inconclusive = []
     sat_cases = []
     obligations = discharged = evaluations = 0
     nontrivial_keys = set()
+    nontrivial_merged = 0
     paths = validated = 0
     stubs, assumptions, functions, notes = set(), [], set(), []
     samples = []
@@ -230,18 +235,25 @@ def main(argv=None):
         solver_time += r.get("solver_time", 0.0)
         for k, v in r.get("vacuity", {}).items():
             vac[k] = vac.get(k, 0) + v
-        if r.get("paths", 0) > 0 and r.get("vacuity", {}).get("paths_sat", 0) == 0 and not r.get("exceptions") \
-                and not r.get("allow_vacuous"):
+        vq = r.get("vacuity", {})
+        if r.get("paths", 0) > 0 and vq.get("paths_sat", 0) == 0 and vq.get("paths_unknown", 0) > 0:
+            inconclusive.append(dict(item=cfg.get("id"), why="vacuity guard: path feasibility unknown"))
+        if r.get("paths", 0) > 0 and vq.get("paths_sat", 0) == 0 and vq.get("paths_unknown", 0) == 0 \
+                and not r.get("exceptions") and not r.get("allow_vacuous") and r.get("aborted", 0) < r.get("paths", 0):
             harness_errors.append("item %s: VACUOUS (no path with satisfiable constraints)" % cfg.get("id"))
         for o in r.get("obligations", []):
-            obligations += 1
-            stage_hist[o["stage"]] = stage_hist.get(o["stage"], 0) + 1
+            # a harness may merge discharged obligations of one (path, stage, kind) into one record
+            # carrying their number in "count" (keeps the result of items with >10^4 obligations small)
+            n_o = int(o.get("count", 1) or 1)
+            obligations += n_o
+            stage_hist[o["stage"]] = stage_hist.get(o["stage"], 0) + n_o
             if o["stage"] and o["stage"].startswith("solver"):
-                evaluations += 1
+                evaluations += n_o
             if o.get("nontrivial"):
                 nontrivial_keys.add(o["key"])
+                nontrivial_merged += n_o - 1
             if o["status"] == "unsat":
-                discharged += 1
+                discharged += n_o
             elif o["status"] == "sat":
                 sat_cases.append(dict(cfg=r["cfg"], label=o["label"], env=o.get("model") or {}, kind=o.get("kind"),
                                       path=o.get("path")))
@@ -331,7 +343,7 @@ def main(argv=None):
         ev = dict(
             property_id=prop, tier=a.tier, seed=seed, level="model_checking",
             coverage=dict(
-                evaluations=max(evaluations, 0), distinct_nontrivial=len(nontrivial_keys),
+                evaluations=max(evaluations, 0), distinct_nontrivial=len(nontrivial_keys) + nontrivial_merged,
                 rule=("obligations = (configuration, path, goal) triples produced by executing the real pyMOTO "
                       "functions on symbolic values; evaluations = obligations sent to z3 (the rest were closed by "
                       "z3's simplifier or are concrete); non-trivial = both sides not the same term and not both "
